@@ -122,8 +122,46 @@ def prop(case):
     return None
 
 
+def inplace_tokens(p):
+    """one model object, rescaled in place through the setters and recomputed for every rung"""
+    t = ["mssm"]
+    for k in KS:
+        t += gen.mssm_set_tokens(gen.mssm_scale(p, float(k)))
+        t += ["calc_masses", "dump", "amu", "k%d." % k]
+    return t
+
+
+def prop_inplace(case):
+    """the ladder walked on ONE object (set parameters, calculate_masses(), evaluate, rescale, ...) must give,
+    rung by rung, bit-for-bit what a freshly constructed model gives (so it decouples in the same way)"""
+    p = case["p"]
+    r = vx.shared().call(*inplace_tokens(p))
+    if isinstance(r, (vx.Died, vx.Err)):
+        return Fail("executor failure", result=repr(r))
+    if "stopped" in r:
+        discard("rejected:" + r.get("exc", "?"))
+        return None
+    bad = []
+    for k in KS:
+        f = mssm.run_point(gen.mssm_scale(p, float(k)), dumps=("amu",))
+        if isinstance(f, (vx.Died, vx.Err)) or mssm.threw(f):
+            discard("fresh-model-rejected")
+            return None
+        for name in ("amu1L", "amu1LChi0", "amu1LChipm", "amu2L", "unc2L", "tan_beta_cor") + tuple(PARTS):
+            a, b = r.get("k%d.%s" % (k, name)), f.get(name)
+            if a is None or b is None or not (a == b or (a != a and b != b)):
+                bad.append((name, "k=%d" % k, "rescaled object", a, "fresh model", b))
+    if bad:
+        return Fail("a model object rescaled in place does not decouple like a freshly constructed one", problems=bad[:6],
+                    n=len(bad))
+    return None
+
+
 def subchecks(ctx):
     return [Sub("ladder", base(), prop, {"quick": 250, "thorough": 4000},
                 nontrivial=lambda c: True,
                 classes=lambda c: ["tb>30" if c["p"]["TB"] > 30 else "tb<=30"],
-                rule="7-rung scaling ladder of an on-shell base point")]
+                rule="7-rung scaling ladder of an on-shell base point"),
+            Sub("inplace", base(), prop_inplace, {"quick": 40, "thorough": 1000},
+                nontrivial=lambda c: True, classes=lambda c: ["inplace"],
+                rule="the same ladder walked on one model object that is rescaled through its setters and recomputed")]
